@@ -858,18 +858,6 @@ func (a *apiRun) txnDumps() string {
 	return sb.String()
 }
 
-// sxText renders a parsed S-expression back to text.
-func sxText(n *sx) string {
-	if !n.isL {
-		return n.atom
-	}
-	parts := make([]string, len(n.list))
-	for i, c := range n.list {
-		parts[i] = sxText(c)
-	}
-	return "(" + strings.Join(parts, " ") + ")"
-}
-
 func init() {
 	registerOracle(&oracle{prop: "C02", name: "batch-equals-surviving-singles", run: oracleBatches})
 }
